@@ -224,6 +224,30 @@ Definition re_model_fullmatch (ct : chartab) (text s : str) : option bool :=
   | None => None
   end.
 
+(* ------------------------------------------------------------------ the same decision in polynomial time *)
+(* match_items backtracks, which is exponential on expressions such as a?-?a?-?a?... (rexpy writes them for
+   variable-length fragments); the extracted model uses the positions reachable after each item instead.
+   RegexFast.v proves that the two agree on every expression and string. *)
+Definition step_positions (ct : chartab) (s : str) (it : item) (ps : list nat) : list nat :=
+  nodup Nat.eq_dec
+    (flat_map (fun p => map (fun k => (p + k)%nat)
+                            (filter (count_okb (i_min it) (i_max it))
+                                    (seq 0 (S (take_while (sem_cset ct (i_set it)) (skipn p s)))))) ps).
+Definition match_fast (ct : chartab) (items : list item) (s : str) : bool :=
+  existsb (Nat.eqb (List.length s)) (fold_left (fun ps it => step_positions ct s it ps) items [O]).
+
+Definition re_fast_match (ct : chartab) (text s : str) : option bool :=
+  match parse_regex text with
+  | Some items => Some (match_fast ct items s ||
+                        match drop_final_newline s with Some s' => match_fast ct items s' | None => false end)
+  | None => None
+  end.
+Definition re_fast_fullmatch (ct : chartab) (text s : str) : option bool :=
+  match parse_regex text with
+  | Some items => Some (match_fast ct items s)
+  | None => None
+  end.
+
 (* ------------------------------------------------------------------ which refined patterns the text theorem covers *)
 (* the categories that have a regular expression when there are no extra letters *)
 Definition class_codes : list Z := [cA; ca; cL; cUL; cUM; cD; ch; cH; cX; cN; cn; cC; cUC; cWS; cP; cO; cAny].
@@ -267,6 +291,6 @@ Definition regex_entry (s : sexp) : sexp :=
   let full := sx_bool (sx_nth 2 s) in
   match parse_regex text with
   | None => L [A 2]
-  | Some _ => L (map (fun x => match (if full then re_model_fullmatch else re_model_match) py_chartab text (sx_str x) with
+  | Some _ => L (map (fun x => match (if full then re_fast_fullmatch else re_fast_match) py_chartab text (sx_str x) with
                                | Some true => A 1 | Some false => A 0 | None => A 2 end) (sx_list (sx_nth 1 s)))
   end.
